@@ -89,6 +89,14 @@ export function compileOnce(req, { timeoutMs = 120000 } = {}) {
 
 // stack signature of a crashing / hanging request, via gdb in batch mode (only used to name a violation)
 export function gdbSignature(req, mode /* "crash" | "hang" */) {
+  // on a loaded machine gdb may not get through loading the symbols in time: try again before giving up
+  for (let attempt = 0; attempt < 3; attempt++) {
+    const fns = gdbSignatureOnce(req, mode, 300000 * (attempt + 1));
+    if (fns.length) return fns;
+  }
+  return [];
+}
+function gdbSignatureOnce(req, mode, timeoutMs) {
   const dir = fs.mkdtempSync("/var/tmp/bvh-gdb-");
   const f = path.join(dir, "req.json");
   fs.writeFileSync(f, JSON.stringify({ id: 0, cpu_budget_ms: 3600000, ...req }));
@@ -97,7 +105,7 @@ export function gdbSignature(req, mode /* "crash" | "hang" */) {
     if (mode === "crash") {
       const r = spawnSync("gdb", ["-batch", "-ex", "run", "-ex", "bt 400", "--args", BEFFC, "--once", f], {
         encoding: "utf8",
-        timeout: 120000,
+        timeout: timeoutMs,
         maxBuffer: 1 << 26,
       });
       out = (r.stdout || "") + (r.stderr || "");
@@ -106,7 +114,7 @@ export function gdbSignature(req, mode /* "crash" | "hang" */) {
       spawnSync("sleep", ["2"]);
       const r = spawnSync("gdb", ["-p", String(child.pid), "-batch", "-ex", "thread apply all bt 400"], {
         encoding: "utf8",
-        timeout: 60000,
+        timeout: timeoutMs,
         maxBuffer: 1 << 26,
       });
       out = (r.stdout || "") + (r.stderr || "");
